@@ -255,3 +255,24 @@ def lock_discipline(ctx, rep, rule, class_qual, lock_field, table_field, skip=("
                "clear() when the connection closes - blocks for ever" % (
                    mname, lock_field, "an exception between acquire() and release()" if g.excexit in leaks else "a normal exit"),
                m.loc, witness=ctx.path(wit) if wit else None)
+
+
+def no_memo(ctx, rep, rule, module_names, why):
+    """no function of the given modules is memoised by argument equality (functools.lru_cache / cache / cached_property or a
+    hand-rolled memoize decorator): what such a function computes depends on process state that changes (sys.modules, the
+    objects behind equal-looking keys), so a remembered answer goes stale or is shared between callers that must not share it"""
+    memo = []
+    n = 0
+    for q, f in sorted(ctx.repo.funcs.items()):
+        if f.module.name not in module_names:
+            continue
+        n += 1
+        for d in f.node.decorator_list:
+            dn = A.dotted(d.func) if isinstance(d, ast.Call) else A.dotted(d)
+            if dn and dn.split(".")[-1] in ("lru_cache", "cache", "memoize", "memoized", "cached", "cached_property", "memo"):
+                memo.append((f, dn))
+    rep.floor(rule, "functions scanned for memoising decorators", n, 10)
+    rep.ob(rule, "%s: no function is memoised by argument equality" % ", ".join(sorted(m.split(".")[-1] for m in module_names)),
+           not memo, "no lru_cache / cache decorator" if not memo else
+           "%s is decorated with @%s: %s" % (memo[0][0].qual.split(".", 2)[-1], memo[0][1], why),
+           memo[0][0].loc if memo else None, kind="model")
